@@ -19,8 +19,108 @@ func single(id, text string) craftedDoc {
 
 // craftedTransparency: the shared-target shapes named in the property, one document each,
 // and the pointer-escaping matrix. They go through the same machinery as the random graphs.
+// craftedParamStyles: one document per (location, style, explode spelling): a parameter component referenced from two
+// operations next to an inline copy. Serialization settings (style, explode, also when left to their defaults) must
+// survive inlining and the Expand round trip; combinations the parser refuses fail on both sides alike.
+func craftedParamStyles() []craftedDoc {
+	var out []craftedDoc
+	type ps struct{ in, style, schema string }
+	arr := "{type: array, items: {type: string}}"
+	obj := "{type: object, properties: {a: {type: string}, b: {type: integer}}}"
+	combos := []ps{
+		{"query", "", arr}, {"query", "form", arr}, {"query", "pipeDelimited", arr}, {"query", "spaceDelimited", arr}, {"query", "deepObject", obj}, {"query", "form", obj},
+		{"path", "", arr}, {"path", "simple", arr}, {"path", "label", arr}, {"path", "matrix", arr}, {"path", "matrix", obj},
+		{"header", "", arr}, {"header", "simple", obj},
+		{"cookie", "", "{type: string}"}, {"cookie", "form", arr},
+	}
+	for _, c := range combos {
+		for _, ex := range []string{"", "true", "false"} {
+			var attrs []string
+			if c.style != "" {
+				attrs = append(attrs, "style: "+c.style)
+			}
+			if ex != "" {
+				attrs = append(attrs, "explode: "+ex)
+			}
+			if c.in == "path" {
+				attrs = append(attrs, "required: true")
+			}
+			attrs = append(attrs, "schema: "+c.schema)
+			body := strings.Join(attrs, ", ")
+			seg := ""
+			if c.in == "path" {
+				seg = "/{ids}"
+			}
+			id := fmt.Sprintf("param-style/%s-%s-explode-%s", c.in, map[bool]string{true: "default", false: c.style}[c.style == ""], map[bool]string{true: "absent", false: ex}[ex == ""])
+			if strings.HasPrefix(c.schema, "{type: object") {
+				id += "-object"
+			}
+			out = append(out, single(id, head30+fmt.Sprintf(`paths:
+  /a%[1]s:
+    get:
+      operationId: a
+      parameters:
+        - {$ref: '#/components/parameters/Ids'}
+      responses:
+        "200": {description: ok}
+  /b%[1]s%[5]s:
+    get:
+      operationId: b
+      parameters:
+        - {$ref: '#/components/parameters/Ids'}
+        - {name: other, in: %[2]s, %[4]s}
+      responses:
+        "200": {description: ok}
+components:
+  parameters:
+    Ids: {name: ids, in: %[2]s, %[3]s}
+`, seg, c.in, body, body, map[bool]string{true: "/{other}", false: ""}[c.in == "path"])))
+		}
+	}
+	return out
+}
+
 func craftedTransparency() []craftedDoc {
 	var out []craftedDoc
+	out = append(out, craftedParamStyles()...)
+	// a multipart body that is a component holding further named components, and a later JSON user of those nested
+	// components (the generator caches referenced types per (reference, encoding))
+	{
+		var props, kinds, props2 strings.Builder
+		for i := 0; i < 8; i++ {
+			fmt.Fprintf(&props, "        k%d: {$ref: '#/components/schemas/Kind%d'}\n", i, i)
+			fmt.Fprintf(&props2, "                  k%d: {$ref: '#/components/schemas/Kind%d'}\n", i, i)
+			fmt.Fprintf(&kinds, "    Kind%d: {type: string, enum: [a%d, b%d]}\n", i, i, i)
+		}
+		out = append(out, single("multipart-component-with-nested-components-then-json-user", head30+`paths:
+  /a-upload:
+    post:
+      operationId: upload
+      requestBody:
+        required: true
+        content:
+          multipart/form-data:
+            schema: {$ref: '#/components/schemas/Form'}
+      responses:
+        "200": {description: ok}
+  /b-items:
+    get:
+      operationId: items
+      responses:
+        "200":
+          description: ok
+          content:
+            application/json:
+              schema:
+                type: object
+                properties:
+`+props2.String()+`components:
+  schemas:
+    Form:
+      type: object
+      properties:
+`+props.String()+kinds.String()))
+	}
 	out = append(out, single("header-two-names-inline-responses", head30+`paths:
   /a:
     get:
